@@ -647,6 +647,13 @@ func (s *Subtitles) Optimize() {
 func (s *Subtitles) removeUnusedRegionsAndStyles() {
 	// Loop through items
 	var usedRegions, usedStyles = make(map[string]bool), make(map[string]bool)
+
+	// A used style keeps the styles it inherits from
+	var useStyle = func(style *Style) {
+		for ; style != nil && !usedStyles[style.ID]; style = style.Style {
+			usedStyles[style.ID] = true
+		}
+	}
 	for _, item := range s.Items {
 		// Add region
 		if item.Region != nil {
@@ -655,7 +662,7 @@ func (s *Subtitles) removeUnusedRegionsAndStyles() {
 
 		// Add style
 		if item.Style != nil {
-			usedStyles[item.Style.ID] = true
+			useStyle(item.Style)
 		}
 
 		// Loop through lines
@@ -664,7 +671,7 @@ func (s *Subtitles) removeUnusedRegionsAndStyles() {
 			for _, lineItem := range line.Items {
 				// Add style
 				if lineItem.Style != nil {
-					usedStyles[lineItem.Style.ID] = true
+					useStyle(lineItem.Style)
 				}
 			}
 		}
@@ -674,7 +681,7 @@ func (s *Subtitles) removeUnusedRegionsAndStyles() {
 	for id, region := range s.Regions {
 		if _, ok := usedRegions[region.ID]; ok {
 			if region.Style != nil {
-				usedStyles[region.Style.ID] = true
+				useStyle(region.Style)
 			}
 		} else {
 			delete(s.Regions, id)
